@@ -6,6 +6,7 @@ From PV Require Import Extract.RunC19.
 From PV Require Import Extract.RunC12.
 From PV Require Import Extract.RunC09.
 From PV Require Import Extract.RunC13.
+From PV Require Import Extract.RunC15.
 Import ListNotations.
 Local Open Scope N_scope.
 
@@ -84,5 +85,10 @@ Definition run (cmd : N) (arg : sx) : sx :=
   | 134 => run_c13_4 arg
   | 135 => run_c13_5 arg
   | 136 => run_c13_6 arg
+  | 150 => run_c15_0 arg
+  | 151 => run_c15_1 arg
+  | 152 => run_c15_2 arg
+  | 153 => run_c15_3 arg
+  | 154 => run_c15_4 arg
   | _ => L [A 999999]
   end.
